@@ -150,6 +150,9 @@ def programs (cap : Nat) (mode : String) (n rounds : Nat) : Option (Array SThrea
       { ops := [.cancel 1, .waitDone] })
   | "mixed" =>
     some ((workers fun i => rep rounds [.acq (i % 2), .relIfHeld]).push { ops := [.cancel 1] })
+  | "xrel" =>
+    some ((workers fun _ => .waitStart :: rep rounds [.rel]).push
+      { ops := rep cap [.acq 0] ++ [.waitDone] })
   | "idlerel" =>
     some ((workers fun _ => []).push
       { ops := rep rounds [.rel] ++ rep cap [.acq 0] ++ [.cancel 1, .acq 1] ++ rep cap [.rel] })
